@@ -4,10 +4,13 @@ import (
 	"errors"
 	"fmt"
 	"math"
+	"net"
 	"path/filepath"
 	"sort"
 	"strings"
+	"sync"
 	"testing"
+	"time"
 
 	"github.com/google/uuid"
 	"github.com/semafind/semadb/cluster"
@@ -33,7 +36,11 @@ type Step struct {
 	Down       int  `json:"down"` // -1, or the node that is unavailable during this request (never the entry node)
 	// Hang: the Down node is not unreachable but hung: it accepts the requests and does not answer within
 	// the RPC timeout (only in cases with a 1 s timeout)
-	Hang   bool          `json:"hang,omitempty"`
+	Hang bool `json:"hang,omitempty"`
+	// Wedge: the unavailable server is down and something else accepts TCP connections at its address and
+	// never answers (a frozen process whose listen queue still accepts, a black-holed address): the
+	// connection handshake of the RPC layer itself gets no answer
+	Wedge  bool          `json:"wedge,omitempty"`
 	Points []model.Point `json:"points,omitempty"`
 	Ids    []uuid.UUID   `json:"ids,omitempty"`
 	Search *SearchSpec   `json:"search,omitempty"`
@@ -215,6 +222,9 @@ func genCase(t *rapid.T) Case {
 			if c.HangCase && hangsLeft > 0 && (st.Kind == "update" || st.Kind == "delete") {
 				st.Hang = true
 				hangsLeft--
+				if rapid.IntRange(0, 2).Draw(t, fmt.Sprintf("wedge%d", i)) == 0 {
+					st.Hang, st.Wedge = false, true
+				}
 			}
 		}
 		if st.Kind == "delete" && st.Down < 0 {
@@ -339,7 +349,9 @@ func execCase(c Case) (res vt.Result) {
 		cluster.VerifFaultFn.Store(nil)
 		mrpc.VerifRequestFn.Store(nil)
 		for _, n := range e.nodes {
-			n.Close()
+			if n != nil {
+				n.Close()
+			}
 		}
 	}()
 	if err := e.nodes[0].CreateCollection(models.Collection{UserId: "alice", Id: "col", Replicas: 1, UserPlan: e.plan, IndexSchema: schema}); err != nil {
@@ -387,7 +399,56 @@ func execCase(c Case) (res vt.Result) {
 		}
 		downServer := ""
 		stopHang := func() {}
-		if st.Down >= 0 && st.Hang && c.HangCase {
+		if st.Down >= 0 && st.Wedge && c.HangCase && st.Down < c.Nodes && st.Down != via {
+			// the server is gone and its address accepts connections that nobody serves
+			downServer = e.servers[st.Down]
+			k := st.Down
+			if err := drive.StopClusterNode(e.nodes[k], e.specs[k]); err != nil {
+				return fail("closing the node: %v", err)
+			}
+			e.nodes[k] = nil
+			ln, err := net.Listen("tcp", e.specs[k].Name())
+			if err != nil {
+				return fail("harness: listening at the stopped node's address: %v", err)
+			}
+			var held []net.Conn
+			var heldMu sync.Mutex
+			go func() {
+				for {
+					conn, err := ln.Accept()
+					if err != nil {
+						return
+					}
+					heldMu.Lock()
+					held = append(held, conn)
+					heldMu.Unlock()
+				}
+			}()
+			stopHang = func() {
+				ln.Close()
+				heldMu.Lock()
+				for _, conn := range held {
+					conn.Close()
+				}
+				heldMu.Unlock()
+				if n, err := drive.NewClusterNode(filepath.Join(dir, fmt.Sprintf("node%d", k)), e.specs[k], serversOf(k), nodeOpts, true); err == nil {
+					e.nodes[k] = n
+				}
+			}
+			faults++
+			rec.Count("steps_with_a_wedged_peer", 1)
+			// a request that needs that server must come back (as with any unavailable server)
+			probeDone := make(chan struct{})
+			go func() {
+				defer close(probeDone)
+				e.nodes[via].GetShardsInfo(col)
+			}()
+			select {
+			case <-probeDone:
+			case <-time.After(20 * time.Second):
+				return fail("a request through node %d does not return within 20 s (RPC timeout 1 s, 1 attempt) while server %d accepts connections without answering the RPC handshake", via, k)
+			}
+		} else if st.Down >= 0 && st.Hang && c.HangCase {
 			// a hung peer: its requests are held unanswered; afterwards its connections are reset (the held
 			// requests are never executed) and the other nodes reconnect
 			downServer = e.servers[st.Down]
